@@ -473,7 +473,7 @@ def render_xml(case):
             o.append('<joints><input semantic="JOINT" source="#%s-j"/><input semantic="INV_BIND_MATRIX" source="#%s-m"/></joints>' % (cid, cid))
             o.append('<vertex_weights count="%d"><input semantic="JOINT" source="#%s-j" offset="0"/><input semantic="WEIGHT" '
                      'source="#%s-w" offset="1"/><vcount>%s</vcount><v>%s</v></vertex_weights>'
-                     % (nv, cid, cid, ' '.join(['1'] * nv), ' '.join(['0 0'] * nv)))
+                     % ((nv, cid, cid, ' '.join(['1'] * nv), ' '.join(['0 0'] * nv)) if (ci + nv) % 3 else (0, cid, cid, '', '')))      # (every third skin weights no vertex at all: an empty controller is a controller)
             o.append('</skin></controller>')
         o.append('</library_controllers>')
     counter = [0]
